@@ -401,5 +401,10 @@ def run(ctx: Ctx) -> None:
     with ctx.part():
         _r077(ctx)
     with ctx.part():
+        from .c06 import global_state_rule
+        pci = ctx.model.cls('PauliErrorModel')
+        global_state_rule(ctx, 'R07.3', [pci.methods['generate'], pci.find_method('probability_distribution')[1]],
+                          'errors are sampled')
+    with ctx.part():
         from .c08 import weights_vs_distribution
         weights_vs_distribution(ctx, 'R07.5')
